@@ -42,6 +42,22 @@ def Frame.ok (co : Byte) (f : Frame) : Prop :=
     (f.opcode = opContinuation → co ≠ opInvalid) ∧
     (f.effOp co = opBinary ∨ (f.effOp co = opText ∧ ∃ x, f.payload = ntop x)))
 
+/-- header-level acceptability (what lets the header of `f` through `hybiReadHeader`): like `ok`
+but Close is allowed and nothing is said about the contents of text payloads -/
+def Frame.hok (co : Byte) (f : Frame) : Prop :=
+  f.payload.length < 2 ^ 64 ∧
+  (f.isControl = true → f.fin ≠ 0 ∧ (f.opcode = opClose ∨ f.opcode = opPing ∨ f.opcode = opPong) ∧
+    f.payload.length ≤ 125) ∧
+  (f.isControl = false →
+    (f.opcode = opContinuation → co ≠ opInvalid) ∧ (f.effOp co = opBinary ∨ f.effOp co = opText))
+
+theorem Frame.ok.hok {co : Byte} {f : Frame} (h : f.ok co) : f.hok co := by
+  obtain ⟨h1, h2, h3⟩ := h
+  refine ⟨h1, fun hc => ⟨(h2 hc).1, Or.inr (h2 hc).2.1, (h2 hc).2.2⟩, fun hc => ⟨(h3 hc).1, ?_⟩⟩
+  rcases (h3 hc).2 with h | ⟨h, _⟩
+  · exact Or.inl h
+  · exact Or.inr h
+
 def ValidSeq : Byte → List Frame → Prop
   | _, [] => True
   | co, f :: fs => f.ok co ∧ ValidSeq (f.afterCo co) fs
@@ -84,16 +100,24 @@ def run (c : Ctx) (e : Env) : List Nat → RunOut
     let o := run c' e' ls
     ⟨r :: o.outs, o.c, o.e⟩
 
-def Res.bytes : Res → List Byte
-  | .data bs => bs
-  | _ => []
-
-def delivered (outs : List Res) : List Byte := outs.flatMap Res.bytes
-
 /-- the call neither failed nor left defined behaviour -/
 def Res.fine : Res → Bool
   | .data _ => true
   | .again => true
   | _ => false
+
+/-- the caller of the real server: it stops calling after the first result that is neither data
+nor EAGAIN (the connection is closed then) -/
+def runStop (c : Ctx) (e : Env) : List Nat → List Res
+  | [] => []
+  | len :: ls =>
+    if (decode c e len).2.2.fine then (decode c e len).2.2 :: runStop (decode c e len).1 (decode c e len).2.1 ls
+    else [(decode c e len).2.2]
+
+def Res.bytes : Res → List Byte
+  | .data bs => bs
+  | _ => []
+
+def delivered (outs : List Res) : List Byte := outs.flatMap Res.bytes
 
 end VncModel.Ws
